@@ -196,6 +196,13 @@ def work(item):
             dec.candidate('linop:%s:d=%d' % (nm, d), '%s leaves a component unwritten' % nm, kind='linop', d=d, op=op)
             continue
         if op == 8:
+            # "divides by s" in double arithmetic means ONE correctly rounded division per component: a reciprocal-and-multiply is equal in exact
+            # reals but rounds twice and overflows for tiny |s|.  Decided on the term structure (terms are hash-consed).
+            if all(o[k] is T.fdiv(a[k], s) for k in range(n)):
+                dec.holds('A/=s: every component is the single division a_k/s (term identity: correctly rounded, no intermediate overflow), d=%d' % d)
+            else:
+                k_ = [k for k in range(n) if o[k] is not T.fdiv(a[k], s)][0]
+                dec.candidate('linop:%s:d=%d' % (nm, d), 'A/=s computes component %d as %s, not as the single division a_k/s (equal in exact reals only)' % (k_, T.show(o[k_], 4)), kind='div-structure', d=d, op=op)
             # division: direct real-arithmetic query on the raw terms (s != 0)
             conv = S.Conv('real')
             cl = []
@@ -332,6 +339,15 @@ def replay(chk, h, c):
                 worst = float('inf')
             else:
                 worst = max(worst, np.abs(npmat(np.array(o['o'])) - ref).max())
+        elif kind == 'div-structure':
+            for sc_, mag in ((1e-310, 1e-300), (4e-320, 1e-305), (3.0, 1.0), (-7e-309, 2e-301)):
+                vv = rng.uniform(0.5, 1, n) * mag * rng.choice([-1, 1], n)
+                ret, o = h.native('h_linop', [I(8), I(d), Buf('a', vv), Buf('b', w), D(sc_), Buf('o', [np.nan] * n)])
+                got = np.array(o['o'])
+                want = vv / sc_
+                if not np.isfinite(got).all():
+                    return True, float('inf')
+                worst = max(worst, float(np.max(np.abs(got - want) / np.abs(want))) * 1e9 if np.max(np.abs(got - want) / np.abs(want)) > 1e-12 else 0.0)
         elif kind == 'eq':
             d2 = c['d2']
             md = I(c.get('mode', 0))
